@@ -41,6 +41,7 @@ class Contract(object):
         self.raises_classes = raises_classes   # exception classes that may leave the function (verified in its own proof: every raise path has one of them)
         self.may_raise = may_raise         # lambda v: [(exception class, condition)] — exceptional exits of an assumed (external) contract
         self.robust_when = robust_when     # lambda v: [hypotheses] under which int() of a computed float must not depend on last-bit rounding
+        self.names_self = None          # lambda v, old: [facts naming ghost observers of a freshly constructed object by the constructor's arguments] -- assumed at call sites only
         self.names_result = names_result   # lambda v, res: [equalities naming the result of a pure deterministic function by a spec function] — assumed at call sites only (definitional)
         self.bounded_lists = bounded_lists or {}   # loop ordinal -> {list variable: (length expression lambda v, bound)}: case split on the length
         self.comprehensions = comprehensions or {}   # ordinal -> (SpecSeq, lambda v: [params])  list comprehension over a symbolic list = that spec sequence
